@@ -15,6 +15,32 @@ LEVEL_TEXT = (
 
 # property -> (technique, design_ref, level_note, extra sentence for the level text)
 CHECKS = {
+    "C01": ("differential oracle against an explicit oct-forest model: synthetic RAMSES outputs with unique, "
+            "decodable stored numbers (ghost copies negated) are written, loaded by the real loader and compared "
+            "row-multiset-wise and variable by variable, units against an independent table; audit-hook log of "
+            "opened files",
+            "DESIGN.md 3.1, 3.3, 4/C01, appendix A",
+            "trusted: the writer's reading of the RAMSES formats (validated against the unmodified reader), "
+            "levelmax <= 7, little endian, no bisection ordering"),
+    "C04": ("differential oracle (model leaves filtered by the same predicates) + audit-hook trace monitor "
+            "'owner files of qualifying leaves were opened' + exhaustive structural monitor of the Hilbert key "
+            "(independent port, bijection, continuity, prefix property) for bit lengths 1..5",
+            "DESIGN.md 3.1, 3.3, 4/C04",
+            "every box contains a finest-level centre per constrained axis (the property's precondition); "
+            "thresholds kept off cell centres"),
+    "C12": ("differential oracle: model tree truncated at the cap level (coarse cells carry their own unique "
+            "stored numbers), volume conservation and point probes on the returned tiling",
+            "DESIGN.md 4/C12", "full loads are judged by C01"),
+    "C13": ("differential monitor: restricted load vs fresh full load, bit-exact per requested variable; "
+            "independent vector-naming oracle; excluded keys absent",
+            "DESIGN.md 4/C13", "full loads are judged by C01/C14"),
+    "C14": ("reference-model oracle for particle columns (numbers encode cpu,row,column; d/i/b types; random "
+            "header record sizes) and sink CSV columns (code-unit and legacy unit dialects parsed independently)",
+            "DESIGN.md 4/C14", "single-column sink files excluded"),
+    "C15": ("history driver whose executable model is a fresh RamsesDataset making only the call in question; "
+            "all ordered pairs of the argument alphabet exhaustively, then random longer sequences; audit log "
+            "of opened files as localiser",
+            "DESIGN.md 3.6, 4/C15", "each call in isolation is judged by C01/C04/C12/C13/C14"),
     "C02": ("differential oracle on physical quantities (independent unit model) + before/after fingerprints of "
             "the operands, over generated operator/dtype/shape/unit combinations",
             "DESIGN.md 3.2, 4/C02",
